@@ -37,9 +37,9 @@ def collect(chk, prop):
     chk.extra["first_swap_proposals_not_swappable"] = aborted
     # (2) code -> spec: seeded runs with the recording wrapper, every history length up to the limit is in the trace
     plans = []
-    for i in range(900 if thorough else 150):
+    for i in range(900 if thorough else (150 if prop == "C11" else 90)):
         n = rng.choice([10, 12, 16, 20, 24])
-        sizes = rng.choice([[2], [2, 3], [2, 3], [2, 3, 4], [3], ["d"], [2, "d"], [3, "d"]])
+        sizes = rng.choice([[2], [2, 3], [2, 3], [2, 3, 4], [3], ["d"], [2, "d"], [3, "d"], ["w"], ["w", 2]])
         mode = rng.choice(["random", "holes", "uniform", "assort"]) if prop == "C11" else rng.choice(["holes", "holes", "random"])
         plans.append((n, sizes, rng.choice([0.6, 0.9, 1.2]), mode, rng.choice([0, 1, 2, 3, 5, 8]), rng.choice([-1, -1, 5, 60])))
     for i in range(40 if thorough else 8):      # larger networks, longer histories
@@ -48,8 +48,12 @@ def collect(chk, prop):
     if prop == "C12":
         # two interchangeable 2-clique topologies: the excess keys of both topologies live in the same small set, so a
         # pairing that is forbidden in one topology is typically a legal key of the other
-        for i in range(300 if thorough else 60):
+        for i in range(300 if thorough else 40):
             plans.append((rng.choice([12, 16, 24]), [2, 2], rng.choice([1.0, 1.5]), "manyholes", rng.choice([1, 3, 6]), -1))
+        # corners whose edges have different topologies (diamond hubs), many absent pairings
+        for i in range(400 if thorough else 70):
+            plans.append((rng.choice([12, 16, 24]), rng.choice([["w"], ["w"], ["w", 2], ["d"], [2, "d"]]), rng.choice([0.8, 1.1, 1.5]), rng.choice(["holes", "holes", "manyholes", "random"]),
+                          rng.choice([1, 3, 6]), -1))
     for n, sizes, dens, mode, limit, search in plans:
         names = ["2-clique", "2-clique-blue"] if sizes == [2, 2] else None
         es, jd, tops = R.clean_network(rng, n, sizes, dens, names=names)
@@ -57,8 +61,10 @@ def collect(chk, prop):
             continue
         tg = R.make_target(rng, es, jd, tops, mode)
         case = {"edges": es, "jd": jd, "tops": tops, "target": tg, "limit": limit, "search": search,
-                "rng": ("seed", rng.randrange(1 << 30)), "watchdog": 2 if n <= 24 else 15,
-                "ejk_order": rng.choice(["names", "reversed"])}
+                "rng": ("seed", rng.randrange(1 << 30)), "watchdog": 1 if n <= 24 else 15,
+                "ejk_order": rng.choice(["names", "reversed"]),
+                "keep_zero_keys": rng.random() < 0.5,          # zero pairings present as explicit 0.0 entries or absent keys
+                "zero_draws": rng.choice([0, 0, 6])}           # some uniform draws are exactly 0.0
         if rng.random() < 0.2:
             # object reuse: the same vertices carried other motifs (hence other joint degrees) in the network rewired before
             es0, jd0, _t = R.clean_network(rng, n, sizes, dens, names=names)
